@@ -282,6 +282,135 @@ class Ptr:
             p += 1
 
 
+class StdStr:
+    """std::string: a byte string with the library's member functions (length-counted, embedded NUL allowed).  A `const char *`
+    argument (Ptr) is a C string: the members that take one stop at its first NUL, exactly as the library does."""
+    def __init__(self, b=b""):
+        self.b = bytes(b)
+
+    @property
+    def addr(self):
+        return id(self)
+
+    def copy_value(self):
+        return StdStr(self.b)
+
+    def assign_from(self, o):
+        self.b = StdStr.of(o).b
+
+    @staticmethod
+    def of(v):
+        if isinstance(v, StdStr):
+            return v
+        if isinstance(v, Ptr):
+            return StdStr(v.cstr().encode("latin-1"))
+        if isinstance(v, (int, bool)):
+            return StdStr(bytes([int(v) & 0xff]))
+        if isinstance(v, list):
+            return StdStr(bytes([int(x) & 0xff for x in v]))
+        raise Broken("cannot make a std::string from %r" % (v,))
+
+    @staticmethod
+    def construct(args):
+        args = [a for a in args if not isinstance(a, Sym)]
+        if not args:
+            return StdStr()
+        if len(args) == 1:
+            return StdStr.of(args[0]).copy_value()
+        if len(args) == 2 and isinstance(args[0], Ptr) and isinstance(args[1], int):
+            c = args[0].cells()
+            n = int(args[1])
+            if args[0].off + n > len(c):
+                raise OutOfBounds("std::string(ptr, %d) reads past a buffer of %d" % (n, len(c)))
+            return StdStr(bytes(x & 0xff for x in c[args[0].off:args[0].off + n]))
+        if len(args) == 2 and isinstance(args[0], int) and isinstance(args[1], int):
+            return StdStr(bytes([args[1] & 0xff]) * int(args[0]))
+        if len(args) == 2 and isinstance(args[0], It) and isinstance(args[1], It):
+            return StdStr(bytes(int(x) & 0xff for x in args[0].vec.items[args[0].pos:args[1].pos]))
+        raise Broken("std::string constructor with unmodelled arguments %r" % (args,))
+
+    def _cmp3(self, other):
+        o = StdStr.of(other).b
+        return (self.b > o) - (self.b < o)
+
+    def cmp_with(self, op, other):
+        c = self._cmp3(other)
+        return {"==": c == 0, "!=": c != 0, "<": c < 0, ">": c > 0, "<=": c <= 0, ">=": c >= 0}[op]
+
+    def arith(self, op, other):
+        if op != "+":
+            raise Broken("std::string %s" % op)
+        return StdStr(self.b + StdStr.of(other).b)
+
+    def cxx(self, name, ev, a):
+        n = len(self.b)
+        if name in ("size", "length"):
+            return n
+        if name == "empty":
+            return n == 0
+        if name in ("c_str", "data"):
+            return Ptr(list(self.b) + [0], 0)
+        if name == "operator[]":
+            i = int(a[0])
+            if not (0 <= i <= n):
+                raise OutOfBounds("operator[] (%d) on a string of length %d" % (i, n))
+            return conv(self.b[i] if i < n else 0, "char")
+        if name == "at":
+            i = int(a[0])
+            if not (0 <= i < n):
+                raise Thrown("std::out_of_range from string::at(%d)" % i)
+            return conv(self.b[i], "char")
+        if name in ("front", "back"):
+            if n == 0:
+                raise OutOfBounds("%s() on an empty string" % name)
+            return conv(self.b[0 if name == "front" else -1], "char")
+        if name in ("find", "rfind"):
+            needle = StdStr.of(a[0]).b
+            pos = int(a[1]) if len(a) > 1 and isinstance(a[1], int) else (0 if name == "find" else n)
+            r = self.b.find(needle, pos) if name == "find" else self.b.rfind(needle, 0, min(n, pos + len(needle)))
+            return M64 if r < 0 else r
+        if name == "compare":
+            if len(a) == 1:
+                return self._cmp3(a[0])
+            if len(a) in (3, 5) and isinstance(a[0], int):
+                pos, ln = int(a[0]), int(a[1])
+                if pos > n:
+                    raise Thrown("std::out_of_range from string::compare(%d, ...)" % pos)
+                sub = StdStr(self.b[pos:pos + min(ln, n - pos)])
+                other = StdStr.of(a[2])
+                if len(a) == 5:
+                    p2, l2 = int(a[3]), int(a[4])
+                    if p2 > len(other.b):
+                        raise Thrown("std::out_of_range from string::compare")
+                    other = StdStr(other.b[p2:p2 + min(l2, len(other.b) - p2)])
+                return sub._cmp3(other)
+            raise Broken("string::compare with unmodelled arguments")
+        if name == "substr":
+            pos = int(a[0]) if a else 0
+            ln = int(a[1]) if len(a) > 1 else M64
+            if pos > n:
+                raise Thrown("std::out_of_range from string::substr(%d)" % pos)
+            return StdStr(self.b[pos:pos + min(ln, n - pos)])
+        if name in ("append", "operator+="):
+            self.b += StdStr.of(a[0]).b
+            return self
+        if name == "push_back":
+            self.b += bytes([int(a[0]) & 0xff])
+            return None
+        if name == "clear":
+            self.b = b""
+            return None
+        if name in ("begin", "cbegin", "end", "cend", "rbegin", "rend"):
+            v = Vec([conv(x, "char") for x in self.b], "string")
+            if name.startswith("r"):
+                return RIt(v, 0 if name == "rbegin" else n)
+            return It(v, 0 if name.endswith("begin") else n)
+        raise Broken("std::string::%s is not modelled" % name)
+
+    def __repr__(self):
+        return repr(self.b)
+
+
 def _chk_at(o, i):
     if not (0 <= i < len(o.items)):
         raise Thrown("std::out_of_range from at(%d) on %d elements" % (i, len(o.items)))
@@ -322,7 +451,25 @@ def _inc(o, n):
 
 
 def vector_hooks():
-    """summaries of std::vector members and of __normal_iterator's operators"""
+    """summaries of std::vector / std::string members and of __normal_iterator's operators"""
+    h = _vector_hooks()
+    out = {}
+    for k, fn in h.items():
+        if k.startswith("method:"):
+            name = k[7:]
+            out[k] = (lambda name, fn: (lambda ev, o, a: o.cxx(name, ev, a) if isinstance(o, StdStr) else fn(ev, o, a)))(name, fn)
+        else:
+            out[k] = fn
+    for name in ("length", "c_str", "data", "find", "rfind", "compare", "substr", "append"):
+        out["method:" + name] = (lambda name: (lambda ev, o, a: o.cxx(name, ev, a) if isinstance(o, StdStr) else (_ for _ in ()).throw(Broken("%s on an object that is not a string" % name))))(name)
+    out["ctor:std::basic_string<*"] = lambda ev, o, a: StdStr.construct(a)
+    out["ctor:std::allocator<*"] = lambda ev, o, a: Sym.of("allocator")
+    out["std::operator+<char*"] = lambda ev, o, a: StdStr.of(a[0]).arith("+", a[1])
+    out["std::to_string"] = lambda ev, o, a: StdStr(str(int(a[0])).encode())
+    return out
+
+
+def _vector_hooks():
     return {
         "method:size": lambda ev, o, a: len(o.items),
         "method:empty": lambda ev, o, a: not o.items,
@@ -499,6 +646,10 @@ class CxxEvaluator(Evaluator):
             return Struct(t, dict(zip(self.structs[t], vals + [0] * (len(self.structs[t]) - len(vals)))))
         if k == "str":
             return Ptr([ord(c) for c in e["v"]] + [0], 0)
+        if k == "ref" and e.get("d") == "global" and e.get("q") not in self.globals and "iv" in e and tinfo(e.get("t")) is not None:
+            return conv(int(e["iv"]), e.get("t"))
+        if k == "str" and False:
+            pass
         if k == "ref" and e.get("d") == "global" and e.get("q") not in self.globals and tinfo(e.get("t")) is None:
             return Sym.of(e.get("q"))
         if k == "ref" and e.get("d") == "func":
@@ -632,6 +783,13 @@ class CxxEvaluator(Evaluator):
             last = T.split("::")[-1].split("<")[0]
             cands = [f for f in self.prog.funcs.values() if f.get("cls") == T and f["n"] == last and len(f["params"]) == len(args)
                      and (f.get("body") is not None or f.get("inits"))]
+            if not cands:
+                # inherited constructors (`using base::base;`): the base's constructor initialises the derived object
+                for b in (self.prog.records.get(T) or {}).get("bases", []):
+                    bn = b if isinstance(b, str) else (b.get("t") or b.get("n", ""))
+                    bl = bn.split("::")[-1].split("<")[0]
+                    cands += [f for f in self.prog.funcs.values() if f.get("cls") == bn and f["n"] == bl and len(f["params"]) == len(args)
+                              and (f.get("body") is not None or f.get("inits"))]
             if len(cands) == 1:
                 return self.construct(cands[0], Obj(T), args)
             if len(args) == 1 and isinstance(args[0], Obj) and args[0]._cls == T:
